@@ -348,6 +348,13 @@ def check_property(mod, tier, seed, replay=None):
 
     # 0. property specific generation step that must precede the build (C12: regenerate Gen/Effects.lean)
     if hasattr(mod, 'pre_build'):
+        # the generated Lean file is shared by every run that uses this /verif: two concurrent runs for
+        # DIFFERENT source trees (VERIF_REPO) must not check one tree against the other's table - the whole
+        # check (generate, build, kernel check, audit, dynamic validation) runs under an exclusive lock
+        import fcntl
+        _gen_lock = open(os.path.join(LEAN, '.gen.lock'), 'w')
+        fcntl.flock(_gen_lock, fcntl.LOCK_EX)
+        check_property._held = _gen_lock          # released when the process ends
         for pr in (mod.pre_build(tier) or {}).get('problems', []):
             problems.append(pr)
 
@@ -572,7 +579,11 @@ def check_property(mod, tier, seed, replay=None):
         wall_s=round(time.time() - t0, 2),
         violations=(1 if rc else 0),
     )
-    json.dump(ev, open(os.path.join(VERIF, 'evidence', pid + '.json'), 'w'), indent=1, default=str)
+    # evidence/ describes /repo itself; runs against another tree (VERIF_REPO: seeded changes, refactorings,
+    # candidate repairs) write next to it into an ignored directory
+    evdir = 'evidence' if os.path.realpath(REPO) == os.path.realpath('/repo') else 'evidence_alt'
+    os.makedirs(os.path.join(VERIF, evdir), exist_ok=True)
+    json.dump(ev, open(os.path.join(VERIF, evdir, pid + '.json'), 'w'), indent=1, default=str)
     for l in lines:
         print(l)
     print("%s %s: %d theorems (%d discharged), %d cases (%d disagreements), %d oracle runs (%d failures, %d known), %.1fs"
